@@ -1,6 +1,8 @@
 // sevdrive: replays specification-generated cases on the real library and
 // records one observation event per case.
 //   sevdrive <cases.ndjson> <events.ndjson>
+#include <new>
+#include <cstdlib>
 #include <sys/resource.h>
 #include "drv.h"
 #include <symengine/basic.h>
@@ -54,8 +56,30 @@ static void on_terminate()
     crash_event("terminate");
 }
 
+// Replaceable allocation functions backed by malloc, with an optional cap: a request above the cap throws
+// bad_alloc (attacker-controlled sizes in archives then fail fast, also under ASan, whose own operator new
+// treats a refused request as fatal).
+static size_t sev_new_cap = (size_t)-1;
+static void *sev_alloc(size_t n)
+{
+    if (n > sev_new_cap)
+        throw std::bad_alloc();
+    void *p = malloc(n ? n : 1);
+    if (!p)
+        throw std::bad_alloc();
+    return p;
+}
+void *operator new(size_t n) { return sev_alloc(n); }
+void *operator new[](size_t n) { return sev_alloc(n); }
+void operator delete(void *p) noexcept { free(p); }
+void operator delete[](void *p) noexcept { free(p); }
+void operator delete(void *p, size_t) noexcept { free(p); }
+void operator delete[](void *p, size_t) noexcept { free(p); }
+
 int main(int argc, char **argv)
 {
+    if (const char *cap = getenv("SEV_NEW_CAP_MB"))
+        sev_new_cap = (size_t)atol(cap) * 1024 * 1024;
     if (argc < 3) {
         fprintf(stderr, "usage: sevdrive cases.ndjson events.ndjson\n");
         return 2;
